@@ -16,7 +16,7 @@ use crate::exec::{self, Counters, RunResult, Violation};
 use crate::json::hex;
 use crate::prng::Fp;
 use crate::refint;
-use crate::simrng::{Resp, SimRng};
+use crate::simrng::{Method, Resp, SimRng};
 use crate::spec::{OpKind, RunSpec, Task};
 use crate::types::{by_name, TyObj};
 use std::collections::BTreeSet;
@@ -187,6 +187,13 @@ fn exec_task(spec: &RunSpec, ti: usize, task: &Task, ty: &dyn TyObj, gate: Optio
                     let r = exec::guarded(|| ty.gen(&mut rng, op.dynamic));
                     let evs = &rng.events[st..];
                     exec::check_panic(&r, evs, oid, ci, &mut res.violations, &mut res.counters);
+                    if let Ok(v) = &r {
+                        // R4 here too: a run of this mode is the only kind in which several types share one process history
+                        let delivered: Vec<(Method, &[u8])> = evs.iter().filter_map(|e| if let Resp::Ok(b) = &e.resp { Some((e.method, &b[..])) } else { None }).collect();
+                        if !exec::refines(v, &delivered) {
+                            res.violations.push(Violation { class: "refinement", op: oid, call: ci, detail: format!("task {} ({}): gen() returned {} but the RNG delivered [{}]", ti, ty.name(), hex(v), delivered.iter().map(|d| hex(d.1)).collect::<Vec<_>>().join(" ")) });
+                        }
+                    }
                     res.outcomes.push((oi, ci, match r {
                         Ok(v) => Out::Value(v),
                         Err(pc) => Out::Panicked(exec::outcome_class::<()>(&Err(pc))),
@@ -201,6 +208,16 @@ fn exec_task(spec: &RunSpec, ti: usize, task: &Task, ty: &dyn TyObj, gate: Optio
                     let r = exec::guarded(|| ty.fill(*len, *init, *front, *via, &mut rng, op.dynamic));
                     let evs = &rng.events[st..];
                     exec::check_panic(&r, evs, oid, ci, &mut res.violations, &mut res.counters);
+                    if let Ok((Ok(()), elems, intact)) = &r {
+                        let flat: Vec<u8> = elems.iter().flatten().copied().collect();
+                        let delivered: Vec<(Method, &[u8])> = evs.iter().filter_map(|e| if let Resp::Ok(b) = &e.resp { Some((e.method, &b[..])) } else { None }).collect();
+                        if !exec::refines(&flat, &delivered) {
+                            res.violations.push(Violation { class: "refinement", op: oid, call: ci, detail: format!("task {} ({}): fill of {} element(s) ({} bytes) returned Ok, but its bytes are not the bytes the RNG delivered during the call ({} request(s), {} bytes delivered)", ti, ty.name(), len, flat.len(), evs.len(), delivered.iter().map(|d| d.1.len()).sum::<usize>()) });
+                        }
+                        if !*intact {
+                            res.violations.push(Violation { class: "out_of_bounds_write", op: oid, call: ci, detail: format!("task {} ({}): fill of a {}-element sub-slice changed an element outside the sub-slice", ti, ty.name(), len) });
+                        }
+                    }
                     res.outcomes.push((oi, ci, match r {
                         Ok((Ok(()), elems, _)) => Out::FillOk(elems),
                         Ok((Err(()), _, _)) => Out::FillErr,
